@@ -118,6 +118,13 @@ def cases(tier, seed):
             for g in fn_all:
                 out.append({'tree': (f, ('*', '0.25', (g, vs[0]))), 'vars': list(vs), 'form': forms[i % 3],
                             'seed': seed, 'n': 3, 'positive': True})
+    # user variables that look like generated labels (x_v1) next to variables that receive such labels: every
+    # assignment of {one x, x and x_v1, two x in one node} to 2-3 nodes (order decides who is registered first)
+    from .. import gen
+    for n in (2, 3):
+        for lt, edges in gen.flat_circuits(n, 0, ['L', 'XV', 'LS']):
+            for vec in (False, True):
+                out.append({'net': True, 'spec': gen.make_spec(lt, edges), 'cfg': {'vectorize': vec}, 'seed': seed})
     return out
 
 
@@ -174,6 +181,11 @@ def build_op(expr, vs, form, vals):
 def run_case(case):
     from ..refsem import evaluate
     from .. import impl, pool
+    if case.get('net'):
+        from . import C01
+        r = C01.run_case({'spec': case['spec'], 'cfg': case['cfg'], 'seed': case.get('seed', 0)})
+        r['nontrivial'] = True
+        return r
     tree = tuple_tree(case['tree'])
     vs = case['vars']
     res = {'evals': 0, 'nontrivial': False}
